@@ -741,13 +741,28 @@ def rule_Q6(ctx) -> None:
     ctx.count(len(paths))
     n = 0
     bad = None
+    unknown = None
     for p in paths:
         for e in p.events:
             if e.kind == "call" and e.data[1][0] == "a" and e.data[1][2] in ("parse", "load", "FromString"):
                 recv = e.data[1][1]
                 n += 1
                 if recv[0] == "call":
-                    continue                      # X().parse(...): constructed for this value
+                    # X().parse(...): constructed for this value - unless X is a function of the module that hands out a
+                    # memoised object (a cache decorator on a factory makes every call return the same instance)
+                    callee = recv[1]
+                    if callee[0] == "n" and mod.has(callee[1]):
+                        defs_ = [d for d in mod.get_all(callee[1]) if isinstance(d, (ast.FunctionDef, ast.AsyncFunctionDef))]
+                        cached = [d for d in defs_ if any("cache" in ast.unparse(dec).lower() for dec in d.decorator_list)]
+                        if cached:
+                            bad = bad or (show(recv) + " (memoised by " + ", ".join(ast.unparse(dec) for dec in cached[0].decorator_list) + ")", e.line)
+                            continue
+                        if defs_ and not any(isinstance(d, ast.ClassDef) for d in mod.get_all(callee[1])):
+                            # a plain factory function: fresh only if each of its returns constructs
+                            rets = [r.value for d in defs_ for r in ast.walk(d) if isinstance(r, ast.Return) and r.value is not None]
+                            if not rets or not all(isinstance(r, ast.Call) for r in rets):
+                                unknown = unknown or (show(recv), e.line)
+                    continue
                 if recv[0] == "n" and recv[1] in ("cls", "self"):
                     continue
                 bad = bad or (show(recv), e.line)
@@ -758,6 +773,8 @@ def rule_Q6(ctx) -> None:
         ctx.refuted("Q6", name, f"receiver={bad[0]}", f"{mod.rel}:{bad[1]}",
                     f"a payload is parsed into {bad[0]}, an object that is not created for this value: parse() does not reset fields that are absent from the payload, so a value with "
                     "nanos (or seconds) 0 inherits the previous value's", "decode 1.5 s, then 2 s: the second comes out as 2.5 s")
+    elif unknown:
+        ctx.inconclusive("Q6", name, f"a payload is parsed into {unknown[0]}, the result of a factory whose returns are not constructions", f"{mod.rel}:{unknown[1]}")
     else:
         ctx.proved("Q6", name, mod.loc(fn), f"{n} parse calls, all on freshly constructed messages")
 
